@@ -854,6 +854,11 @@ class Interp:
     def getattr(self, obj, attr, st):
         meta = st.frame['$meta']
         cur_cls = meta.get('cls')
+        if isinstance(obj, ExcVal) and attr in ('code', 'args'):
+            # SystemExit.code is the first constructor argument (None when absent); .args the tuple
+            if attr == 'args':
+                return tuple(obj.args)
+            return obj.args[0] if obj.args else None
         if isinstance(obj, Ref):
             p = st.get(obj)
             if isinstance(p, Obj):
